@@ -24,6 +24,16 @@ def run(rep, tier, seed):
             rule = gen_rule(rnd, pd, randbits(rnd, rnd.randint(1, 16)), kinds=kinds)
             d = rnd.choice([None, None, DI.UP, DI.DOWN])
             case_compress(b, pd, rule, d, klass='compress:' + stack)
+            if j == 2 and rule.field_descriptors:
+                # the rule is edited in place (one descriptor replaced by another kind for the same field) and used again:
+                # the layout must follow the descriptors the rule holds NOW
+                from schc_util import gen_rfd
+                k_ = rnd.randrange(len(rule.field_descriptors))
+                old_ = rule.field_descriptors[k_]
+                f_ = pd.fields[k_]
+                rule.field_descriptors[k_] = gen_rfd(rnd, f_, rnd.choice(['ns', 'vs', 'vsv', 'lsb', 'lsbv', 'map']), old_.direction)
+                case_compress(b, pd, rule, d, klass='compress-after-edit:' + stack)
+                case_compress(b, pd, rule, rnd.choice([DI.UP, DI.DOWN]), klass='compress-after-edit:' + stack)
         case_compress(b, pd, no_compression_rule(randbits(rnd, rnd.randint(1, 16)), rnd.choice([L, R])), None, klass='no-compression:' + stack)
     for i in range(1500 if tier == 'quick' else 15000):
         rule, vals = synth_case(rnd)
